@@ -321,6 +321,14 @@ func runC17(s *core.Sim, tier string) RunInfo {
 		return info()
 	}
 	w.checkStore(m, "after all writers finished")
+	if !s.Failed() && s.Tape.Coin("restart-at-the-end", 1, 2) {
+		// what the race left in memory is also what it left in the datastore
+		if err := w.Restart(); err != nil {
+			s.Violate("start-error", map[string]string{"after": "concurrent-use"}, "restart after concurrent use: %v", err)
+			return info()
+		}
+		w.checkStore(m, "after all writers finished and a clean restart")
+	}
 	return info()
 }
 
